@@ -232,16 +232,15 @@ std::ostream& instance_t::print_parameters(std::ostream& os) const
 
 std::ostream& instance_t::print_arguments(std::ostream& os) const
 {
-    auto b = std::begin(parameters), e = std::end(parameters);
-    if (b != e) {
-        auto itr = mapping.find(*b);
+    // the unbound parameters come first and have no argument
+    bool first = true;
+    for (size_t i = unbound; i < parameters.get_size(); ++i) {
+        auto itr = mapping.find(parameters[i]);
         assert(itr != std::end(mapping));
-        itr->second.print(os);
-        while (++b != e) {
-            itr = mapping.find(*b);
-            assert(itr != std::end(mapping));
-            itr->second.print(os << ", ");
-        }
+        if (itr == std::end(mapping))
+            continue;
+        itr->second.print(first ? os : os << ", ");
+        first = false;
     }
     return os;
 }
